@@ -2,7 +2,7 @@
 
 ENGINES = [
     dict(name='symx', path='/verif/symx',
-         serves_properties=['C01', 'C02', 'C03', 'C04', 'C05', 'C06', 'C07'],
+         serves_properties=['C01', 'C02', 'C03', 'C04', 'C05', 'C06', 'C07', 'C12', 'C13'],
          kind_free_text='symbolic execution of the real emsarray functions on numpy/xarray object arrays of z3-backed '
                         'scalars; fork-by-re-execution path explorer; every path closed by z3 verdict queries and a '
                         'concrete replay of a model on the unmodified stack'),
@@ -88,6 +88,28 @@ CHECKS = {
         design_ref='DESIGN.md section 4, C05',
         note='Request vectors are enumerated via the solver (values stay symbolic). The spatial lookup is a contract (miss or '
              'one cell per request; boundary hits are C04). Each path is replayed with real points on float arrays.',
+    ),
+    'C12': dict(
+        engine='symx',
+        technique='symbolic execution of the real ocean_floor code (through xarray cumsum/argmax/isel/merge) on object arrays of z3 reals with symbolic NaN flags; z3 decides the deepest-valid-layer postcondition per column',
+        text='The sea-floor shape (a dry flag per layer and location), all data values and the depth values are symbolic. For '
+             'every orientation (positive up/down x storage order), depth-dimension position and convention layout z3 shows '
+             'each output value is the term of the deepest layer that holds data (NaN for an all-dry column), the depth '
+             'dimension and coordinate are gone and everything else is unchanged.',
+        design_ref='DESIGN.md section 4, C12',
+        note='xarray runs unmodified on object arrays except duck_array_ops.pandas_isnull (taught the symbolic NaN flag); '
+             'static sea floor (flags shared by variables and times) as the property states; 2-4 layers x 2 locations.',
+    ),
+    'C13': dict(
+        engine='symx',
+        technique='symbolic execution of the real normalize_depth_variables on object arrays of z3 reals; z3 decides sign/order/bounds/data alignment on every branch of the ordering test',
+        text='Depth values (any strictly monotonic reals), bounds and data are symbolic. For all 9 option combinations, '
+             'attribute spellings, layouts and with/without bounds z3 shows: attribute and values agree with the requested '
+             'sign, requested order holds, bounds and data stay attached to their physical level, None leaves the aspect '
+             'untouched, the input is unmodified and a second application is the identity.',
+        design_ref='DESIGN.md section 4, C13',
+        note='When the positive attribute is absent the depth values are concrete sign patterns (the sign guess indexes an '
+             'array with a comparison result). 2-4 levels. One genuine defect (case-sensitive attribute) was repaired in /repo.',
     ),
 }
 
